@@ -58,8 +58,11 @@ def ref_basis(shape, kind="normal"):
 def state_case(draw, shape_names=("1q", "qutrit", "2q"), special=True):
     shape = draw(shapes(*shape_names))
     d = dim_of(shape)
-    kind = draw(st.sampled_from(["generic", "generic", "generic", "pure", "rankdef", "mixed", "diag"] if special else ["generic"]))
+    kind = draw(st.sampled_from(["generic", "generic", "generic", "pure", "rankdef", "mixed", "diag", "nearboundary"] if special else ["generic"]))
     case = {"type": "state", "shape": shape, "kind": kind}
+    if kind == "nearboundary":
+        # physical, with one eigenvalue that is tiny but not zero (1e-12..1e-6): just inside the boundary
+        case["tiny"] = draw(log_uniform(1e-12, 1e-6))
     if kind == "mixed":
         return case
     case["raw_u"] = draw(raw(2 * d * d))
@@ -82,6 +85,15 @@ def state_matrix(case):
     if k == "diag":
         p = rm.simplex_from_raw(case["raw_p"][:d], case.get("zero_mask"))
         return np.diag(p).astype(complex)
+    if k == "nearboundary":
+        u = rm.unitary_from_raw(case["raw_u"], d)
+        p = rm.simplex_from_raw(case["raw_p"][:d], None)
+        j = int(np.argmin(p))
+        p = p.copy()
+        p[j] = 0.0
+        p = p / p.sum() * (1.0 - case["tiny"])
+        p[j] = case["tiny"]
+        return rm.herm((u * p) @ u.conj().T)
     return rm.density_from_raw(case["raw_u"], case["raw_p"], d, case.get("zero_mask"))
 
 
@@ -120,8 +132,14 @@ def gate_case(draw, shape_names=("1q", "qutrit", "2q"), max_rank=None):
     shape = draw(shapes(*shape_names))
     d = dim_of(shape)
     mr = d * d if max_rank is None else min(max_rank, d * d)
-    kind = draw(st.sampled_from(["generic", "generic", "unitary", "identity", "depol"]))
+    kind = draw(st.sampled_from(["generic", "generic", "unitary", "identity", "depol", "weak"]))
     case = {"type": "gate", "shape": shape, "kind": kind}
+    if kind == "weak":
+        # a channel close to, but not equal to, the identity: weak depolarising noise or a tiny rotation about a drawn axis
+        case["sub"] = draw(st.sampled_from(["depol", "rot"]))
+        case["strength"] = draw(log_uniform(1e-10, 1e-3))
+        case["raw"] = draw(raw(2 * d * d))
+        return case
     if kind == "generic":
         r = draw(st.integers(1, mr))
         case["r"] = r
@@ -139,8 +157,17 @@ def gate_kraus(case):
     k = case["kind"]
     if k == "identity":
         return [np.eye(d, dtype=complex)]
-    if k == "depol":
-        p = case["p"]
+    if k == "weak" and case["sub"] == "rot":
+        h = rm.herm(rm.ginibre(case["raw"], d, d)) if hasattr(rm, "ginibre") else None
+        if h is None:
+            a = np.asarray(case["raw"][: d * d]).reshape(d, d) + 1j * np.asarray(case["raw"][d * d: 2 * d * d]).reshape(d, d)
+            h = (a + a.conj().T) / 2
+        nrm = float(np.linalg.norm(h))
+        h = h / nrm if nrm > 1e-9 else np.diag(np.arange(d, dtype=float) - (d - 1) / 2)
+        w, v = np.linalg.eigh(h)
+        return [(v * np.exp(-1j * case["strength"] * w)) @ v.conj().T]
+    if k == "depol" or k == "weak":
+        p = case["p"] if k == "depol" else case["strength"]
         # (1-p) id + p * completely depolarising, Kraus via Weyl-free construction
         ks = [math.sqrt(1 - p) * np.eye(d, dtype=complex)]
         for i in range(d):
